@@ -37,10 +37,12 @@ UNIVERSE = [
     # degenerate and reversed ranges: equal bounds under every bracket form, lower > upper
     ('r[1,1]', NOJSON, 'range'), ('r(1,1)', NOJSON, 'range'), ('r[1,1)', NOJSON, 'range'), ('r(1,1]', NOJSON, 'range'),
     ('r(2.5,2.5)', NOJSON, 'range'), ('r[2.5,2.5]', NOJSON, 'range'), ('r[2,1]', NOJSON, 'range'),
+    # reversed ranges with values strictly between the bounds (1 between 2 and 0; 1.5 between 2.5 and 0.0): they hold nothing
+    ('r[2,0]', NOJSON, 'range'), ('r(2,0]', NOJSON, 'range'), ('r[2.5,0.0]', NOJSON, 'range'), ('r(2.5,0.0)', NOJSON, 'range'),
 ]
 QUICK = ['0', '1', '-1', '2', '1.5', '2.5', '0.0', '""', '"a"', '"ab"', '"b"', 'true', 'null', '[]', '[1]', '[1, 2]',
          '[2, 1]', '{}', '{a: 1}', '{a: 1, b: 2}', '{b: 2, a: 1}', '/^ab/', 'r[1,2)', 'r(1,2]', 'r[0.5,2.5]',
-         'r(1,1)', 'r[1,1)', 'r[1,1]', 'r(2.5,2.5)', '9007199254740993', '9007199254740992']
+         'r(1,1)', 'r[1,1)', 'r[1,1]', 'r(2.5,2.5)', '9007199254740993', '9007199254740992', 'r[2,1]', 'r[2,0]', 'r(2,0]', 'r[2.5,0.0]']
 # lhs-only document values that cannot be written as Guard literals
 EXTRA_DOCS = [(-2.5, 'float'), (-9223372036854775808, 'int'), (-0.0, 'float')]
 
